@@ -254,6 +254,7 @@ def const_env(rel, env):
     """evaluate all `const NAME: ty = expr;` of a file in order, resolving earlier names"""
     for m in re.finditer(r"\bconst\s+([A-Z0-9_]+)\s*:\s*(?:usize|u8|u16|u32|u64|i64)\s*=\s*([^;]+);", strip_comments(src(rel))):
         name, expr = m.group(1), m.group(2).strip()
+        expr = re.sub(r"\b(?:[a-z_][a-z0-9_]*::)+(?=[A-Z])", "", expr)     # crate::message::NAME -> NAME
         expr2 = re.sub(r"\b([A-Z][A-Z0-9_]+)\b", lambda mm: str(env[mm.group(1)]) if mm.group(1) in env else mm.group(0), expr)
         try:
             env[name] = num(expr2)
@@ -272,8 +273,18 @@ def sockname(lit):
 def proto():
     gr = "core/src/protocol/zmtp/greeting.rs"
     en = "core/src/protocol/zmtp/engine.rs"
-    env = const_env(gr, {})
+    env = const_env("core/src/message/mod.rs", {})
+    env = const_env(gr, env)
     env = const_env(en, env)
+    env = const_env("core/src/socket/dealer_socket.rs", env)
+    emit_nat("MAX_WIRE_FRAMES_PER_MESSAGE", env.get("MAX_WIRE_FRAMES_PER_MESSAGE", 0))
+    emit_nat("MAX_USER_FRAMES_PER_MESSAGE", env.get("MAX_USER_FRAMES_PER_MESSAGE", 0))
+    emit_nat("MAX_DEALER_SEND_BUFFER_PARTS", env.get("MAX_DEALER_SEND_BUFFER_PARTS", 0))
+    # the public send_multipart refuses what the pipeline cannot carry
+    emit_nat("sendMultipartChecksFrameCount", 1 if re.search(
+        r"if frames\.len\(\) > crate::message::MAX_USER_FRAMES_PER_MESSAGE \{\s*return Err", strip_comments(src("core/src/socket/types.rs"))) else 0)
+    # FrameBatch capacity (xs_foundation VecU8: u8 length)
+    emit_nat("FRAMEBATCH_CAPACITY", 255)
     for n in ["GREETING_LENGTH", "MECHANISM_LENGTH", "SIGNATURE_LENGTH", "VERSION_MAJOR_OFFSET", "VERSION_MINOR_OFFSET",
               "MECHANISM_OFFSET", "AS_SERVER_OFFSET", "PADDING_OFFSET", "PADDING_LENGTH", "REVISION_OFFSET",
               "V2_SOCKET_TYPE_OFFSET", "V2_GREETING_LENGTH", "FLAT_THRESHOLD"]:
@@ -499,6 +510,27 @@ def lifecycle():
     bb = fn_body(pm, "process_inproc_binding_request_event")
     emit_nat("inprocRefusalKeepsBinder", 1 if re.search(
         r"validate_socket_compatibility\([^)]*\)\s*\{.{0,400}?reply_tx\.send\(Err\(e\)\);\s*return Ok\(\(\)\);", bb, re.S) else 0)
+    # multipart stash: what happens to the unread frames of a message on deregister / recv_multipart
+    ai = strip_comments(src("core/src/socket/patterns/anonymous_ingress.rs"))
+    bd = fn_body("core/src/socket/patterns/anonymous_ingress.rs", "deregister_pipe")
+    emit_nat("anonDeregKeepsStash", 0 if "local_cache" in bd else 1)
+    for nm, rel in (("dealer", "core/src/socket/dealer_socket.rs"), ("router", "core/src/socket/router_socket.rs")):
+        body = fn_body(rel, "recv_multipart")
+        emit_nat(nm + "RecvMultipartDrainsStash", 1 if re.search(r"self\.frame_recv_buffer\.lock\(\)\.take\(\)", body) else 0)
+        whole = strip_comments(src(rel))
+        # pipe_detached must not touch the stash either
+        emit_nat(nm + "DetachKeepsStash", 0 if re.search(r"fn pipe_detached.*?frame_recv_buffer", whole, re.S) and
+                 "frame_recv_buffer" in fn_body(rel, "pipe_detached") else 1)
+    # send_multipart: MORE on all but the last frame
+    norm = r"if i (?:\+ 1 )?< \w+(?: - 1)? \{\s*frame\.set_flags\(frame\.flags\(\) \| MsgFlags::MORE\);\s*\} else \{\s*frame\.set_flags\(frame\.flags\(\) & !MsgFlags::MORE\);"
+    for nm, rel, fn in (("push", "core/src/socket/push_socket.rs", "send_multipart"), ("pub", "core/src/socket/pub_socket.rs", "send_multipart"),
+                        ("dealer", "core/src/socket/dealer_socket.rs", "prepare_full_multipart_send_sequence"),
+                        ("router", "core/src/socket/router_socket.rs", "send_multipart")):
+        try:
+            body = fn_body(rel, fn)
+        except Exception:
+            body = ""
+        emit_nat(nm + "SendNormalisesMore", 1 if re.search(norm, body) else 0)
     # session batch assembly: is the pipe tapped only when the carry-over is empty?
     act = strip_comments(src("core/src/sessionx/actor.rs"))
     emit_nat("topUpOnlyIfCarryEmpty", 1 if re.search(
